@@ -202,6 +202,9 @@ func normalizeObject(s *gen.Shape, v reflect.Value, env *gen.Env, depth int) any
 		if fv.Kind() == reflect.Interface && fv.IsNil() {
 			continue
 		}
+		if p.EmptyDef && fv.IsZero() {
+			continue // documented identification: the empty value of such a property is absence
+		}
 		out[p.Name] = normalize(p.T, fv, env, depth+1)
 	}
 	return out
@@ -262,7 +265,13 @@ func normalizeOneOf(s *gen.Shape, v reflect.Value, env *gen.Env, depth int) any 
 		var mem *gen.Member
 		var typed any
 		if d.IsValid() {
-			dv := normalizeAny(d, depth)
+			for d.Kind() == reflect.Interface && !d.IsNil() {
+				d = d.Elem()
+			}
+			var dv any
+			if d.IsValid() && (d.Type() == reflect.TypeOf("") || d.Type() == reflect.TypeOf(int64(0))) {
+				dv = d.Interface() // only the native discriminator types count as native form
+			}
 			typed = dv
 			for _, m := range s.Members {
 				if (s.Kind == gen.KOneOfStr && dv == m.KeyS) || (s.Kind == gen.KOneOfInt && dv == m.KeyI) {
@@ -400,10 +409,13 @@ func compare(s *gen.Shape, exp, act any, env *gen.Env, path string, depth int) s
 		structMapped = obj.Struct != ""
 		for k, ev := range em {
 			av, ok := am[k]
+			p := obj.Prop(k)
+			if !ok && structMapped && p != nil && p.EmptyDef && isZeroGeneric(ev) {
+				continue // documented identification: an empty treat-empty-as-default value is absence
+			}
 			if !ok {
 				return fmt.Sprintf("%s: property %q missing (got keys %v)", path, k, keysOfS(am))
 			}
-			p := obj.Prop(k)
 			if p == nil {
 				if k == s.Disc && fmt.Sprintf("%T:%v", ev, ev) != fmt.Sprintf("%T:%v", av, av) {
 					return fmt.Sprintf("%s.%s: discriminator expected %T(%v), got %T(%v)", path, k, ev, ev, av, av)
@@ -606,7 +618,7 @@ func check(s *gen.Shape, g any, env *gen.Env, path string, depth int) string {
 				return w
 			}
 		}
-		if s.Struct == "" {
+		if gen.AllAbsentable(s) {
 			if w := PresenceViolation(s, set); w != "" {
 				return path + ": " + w
 			}
@@ -646,4 +658,26 @@ func check(s *gen.Shape, g any, env *gen.Env, path string, depth int) string {
 		}
 	}
 	return ""
+}
+
+func isZeroGeneric(v any) bool {
+	switch x := v.(type) {
+	case int64:
+		return x == 0
+	case float64:
+		return x == 0
+	case string:
+		return x == ""
+	case bool:
+		return !x
+	case []any:
+		return len(x) == 0
+	case map[any]any:
+		return len(x) == 0
+	case map[string]any:
+		return len(x) == 0
+	case nil:
+		return true
+	}
+	return false
 }
